@@ -149,6 +149,25 @@ pub fn c15(sk: &Skeleton) -> Leaf {
     let lines = ledger::instantiate(sk, "lines", &m);
     let txs = ledger::to_transactions(&lines);
     let mut leaf = Leaf { extra: json!({"ledger": ledger::describe(&lines)}), outcome: "ok".into(), ..Default::default() };
+    if variant == "convert" {
+        // the Schwab converter on hostile field spellings (concrete strings from the skeleton): a clean error or a result, never a panic
+        use cgt_converter::BrokerConverter;
+        let row = &sk.raw["opts"]["row"];
+        let tj = json!({"BrokerageTransactions": [row]}).to_string();
+        let input = cgt_converter::schwab::SchwabInput { transactions_json: tj, awards_json: sk.opt_str("awards") };
+        match cgt_converter::schwab::SchwabConverter::new().convert(&input) {
+            Ok(o) => {
+                leaf.extra["dsl_lines"] = json!(o.cgt_content.lines().count());
+            }
+            Err(e) => {
+                leaf.outcome = "err".into();
+                leaf.msg = e.to_string();
+                leaf.ob_bool("C15.error-is-descriptive", !leaf.msg.trim().is_empty(), "empty error message");
+            }
+        }
+        leaf.ob_bool("C15.no-panic", true, "");
+        return leaf;
+    }
     if variant == "validator" {
         let res = cgt_core::validate(&txs);
         let zero = Decimal::ZERO;
@@ -257,7 +276,10 @@ fn money_spans(line: &str) -> Vec<String> {
 }
 
 fn num_token(tok: &str) -> Option<Decimal> {
-    Decimal::from_str(tok.trim().trim_start_matches('£')).ok()
+    // a number possibly preceded by a currency symbol or code (format_price: "£4.67", "$150", "JPY12")
+    let t = tok.trim();
+    let start = t.char_indices().find(|(_, c)| c.is_ascii_digit() || *c == '-').map(|(i, _)| i)?;
+    Decimal::from_str(&t[start..]).ok()
 }
 
 struct TextCheck<'a> {
@@ -298,7 +320,9 @@ pub fn c17(sk: &Skeleton) -> Leaf {
     let txs = ledger::to_transactions(&lines);
     let mut leaf = Leaf { extra: json!({"ledger": ledger::describe(&lines)}), ..Default::default() };
     let cfg = Config::embedded().expect("config");
-    let rep = match cgt_core::calculator::calculate(&txs, None, None, &cfg) {
+    let foreign = lines.iter().any(|l| l.cur_p != cgt_core::Currency::GBP || l.cur_f != cgt_core::Currency::GBP);
+    let cache = if foreign { cgt_money::load_default_cache().ok() } else { None };
+    let rep = match cgt_core::calculator::calculate(&txs, None, cache.as_ref(), &cfg) {
         Ok(r) => r,
         Err(e) => {
             leaf.outcome = "err".into();
@@ -555,6 +579,53 @@ pub fn c17(sk: &Skeleton) -> Leaf {
                     t.problems.push(format!("echo line '{l}'"));
                 }
             }
+        }
+    }
+    // asset events: every DIVIDEND / ACCUMULATION / CAPRETURN / SPLIT / UNSPLIT line with its amount in its own currency,
+    // rounded to that currency's minor units (midpoints away from zero)
+    let mut events: Vec<&Transaction> = rep.transactions.iter().filter(|x| !matches!(x.operation, Operation::Buy { .. } | Operation::Sell { .. })).collect();
+    events.sort_by(|a, b| a.date.cmp(&b.date).then_with(|| a.ticker.cmp(&b.ticker)));
+    let ev_lines: Vec<&str> = match t.lines.iter().position(|l| l.starts_with("# ASSET EVENTS")) {
+        Some(h) => t.lines.iter().skip(h + 1).take_while(|l| !l.starts_with("# ")).copied().filter(|l| !l.trim().is_empty()).collect(),
+        None => vec![],
+    };
+    if ev_lines.len() != events.len() {
+        t.problems.push(format!("{} asset-event lines for {} event transactions", ev_lines.len(), events.len()));
+    }
+    for (x, l) in events.iter().zip(ev_lines.iter()) {
+        let w: Vec<&str> = l.split_whitespace().collect();
+        let name = format!("{} {}", x.ticker, x.date);
+        let mut amount_check = |t: &mut TextCheck, toks: &[&str], ca: &CurrencyAmount| {
+            if ca.is_gbp() {
+                if toks.len() == 1 {
+                    t.money(&format!("event amount {name}"), toks[0], ca.amount);
+                } else {
+                    t.problems.push(format!("event amount of {name}: {toks:?}"));
+                }
+            } else if toks.len() == 2 && toks[1] == ca.code() {
+                let mu = ca.minor_units() as u32;
+                t.exact(&format!("event amount {name} in {}", ca.code()), toks[0], ca.amount.round_dp_with_strategy(mu, RoundingStrategy::MidpointAwayFromZero));
+            } else {
+                t.problems.push(format!("event amount of {name}: {toks:?} (currency {})", ca.code()));
+            }
+        };
+        if w.len() < 4 || w[0] != x.date.format("%d/%m/%Y").to_string() {
+            t.problems.push(format!("asset-event line '{l}'"));
+            continue;
+        }
+        match &x.operation {
+            Operation::Dividend { total_value, .. } if w[1] == "DIVIDEND" && w[2] == x.ticker => amount_check(&mut t, &w[3..], total_value),
+            Operation::Accumulation { amount, total_value, .. } if w[1] == "ACCUMULATION" && w[2] == x.ticker && w.len() >= 5 => {
+                t.exact(&format!("event quantity {name}"), w[3], *amount);
+                amount_check(&mut t, &w[4..], total_value);
+            }
+            Operation::CapReturn { amount, total_value, .. } if w[1] == "CAPRETURN" && w[2] == x.ticker && w.len() >= 5 => {
+                t.exact(&format!("event quantity {name}"), w[3], *amount);
+                amount_check(&mut t, &w[4..], total_value);
+            }
+            Operation::Split { ratio } if w[1] == "SPLIT" && w[2] == x.ticker && w.len() == 4 => t.exact(&format!("split ratio {name}"), w[3], *ratio),
+            Operation::Unsplit { ratio } if w[1] == "UNSPLIT" && w[2] == x.ticker && w.len() == 4 => t.exact(&format!("unsplit ratio {name}"), w[3], *ratio),
+            _ => t.problems.push(format!("asset-event line '{l}' for {:?}", op_kind(&x.operation))),
         }
     }
     let TextCheck { atoms: tatoms, problems: tproblems, .. } = t;
